@@ -359,7 +359,8 @@ def check(program: Program, run: Run) -> None:
             continue
         fcls = st["func"].rsplit(".", 1)[0]
         ra8 = root_attr(st["recv"])
-        if not (fcls.endswith("QueryBuilder") and fcls in BUILDER_CLASSES) or ra8 not in COLUMN_CLAUSES:
+        is_setop = fcls == "_SetOperation" and ra8 == "_orderbys"      # the operands re-decide for themselves
+        if not is_setop and (not (fcls.endswith("QueryBuilder") and fcls in BUILDER_CLASSES) or ra8 not in COLUMN_CLAUSES):
             continue
         v8 = st["ctx"].fields["with_namespace"]
         chain8 = (getattr(st.get("part"), "src", None) or (None, None, None, ()))[3]
@@ -372,7 +373,13 @@ def check(program: Program, run: Run) -> None:
         inherited = isinstance(v8, (Inh, InhOr)) and v8.name == "with_namespace"
         run.ob("C11/R8 clause rendered under the statement's own namespace decision", f"{st['func']}:{st['recv']}", not inherited, detail=f"with_namespace={show(v8)[:60]}",
                where=f"{st['file']}:{st['line']}")
-        if inherited:
+        if inherited and is_setop:
+            # a set operation has no row sources of its own: its ORDER BY keys name output columns and its operands decide
+            # for themselves; with the enclosing statement's flag they are written with a qualifier no source defines
+            run.finding(f"C11/namespace-decision-inherited:{st['func']}:{ra8}",
+                        f"{st['func']} renders `{st['recv']}` with the incoming ctx.with_namespace: embedded in a statement with joins / several sources the keys of the set operation are "
+                        "written with a table qualifier although the set operation itself has a single, anonymous row source", where=f"{st['file']}:{st['line']}", rule="R8")
+        elif inherited:
             run.finding(f"C11/namespace-decision-missed:{entry8}:{ra8}",
                         f"(reached from {entry8}) {st['func']} renders `{st['recv']}` with the incoming ctx.with_namespace instead of the statement's own decision on some path: with joins / several sources "
                         "the columns of that clause are written bare while the rest of the statement is qualified", where=f"{st['file']}:{st['line']}", rule="R8")
